@@ -43,7 +43,7 @@ theorem texts_length (d : T2Data) (step : Str → T2Data → T2Data) (Good : Str
     intro d0 texts hKs hxp hgood hw
     obtain ⟨t, ts, hwt, hwts, rfl⟩ := mapM_cons_ok _ _ _ _ hw
     have hrt := hstep kw d0 (hKs kw (by simp)) hxp hgood.1
-    obtain ⟨body, hwb, _⟩ := hrt.writes
+    obtain ⟨hdr, body, hwb, _, _⟩ := hrt.writes
     rw [hwt] at hwb
     cases hwb
     have := ih { step kw d0 with sections := (step kw d0).sections ++ [kw] } ts (fun k hk => hKs k (List.mem_cons_of_mem _ hk)) hrt.xp hgood.2 hwts
